@@ -53,7 +53,7 @@ D = "StubGen.Theorems.Decisions"
 PROPS = {
     "C01": spec("C01", [stage_gen.run, stage_ana.run, stage_e2e.run, stage_pipe.run]),
     "C03": spec("C03", [stage_gen.run, stage_ana.run, stage_e2e.run, stage_pipe.run]),
-    "C04": spec("C04", [stage_gen.run, stage_ana.run, stage_e2e.run]),
+    "C04": spec("C04", [stage_gen.run, stage_ana.run, stage_e2e.run], [D], ["StubGen.Decisions.attribute_string_table"]),
     "C17": spec("C17", [stage_gen.run, stage_e2e.run]),
     "C02": spec("C02", [stage_names.run, stage_gen.run, stage_e2e.run], [T],
                 ["StubGen.Tables.keywords_escaped", "StubGen.Tables.escape_table_exact"]),
@@ -61,7 +61,7 @@ PROPS = {
                 ["StubGen.Tables.builtin_names", "StubGen.Decisions.type_of_any_table", "StubGen.Decisions.variance_table"]),
     "C06": spec("C06", [stage_gen.run, stage_ana.run, stage_e2e.run], [D],
                 ["StubGen.Decisions.argument_kind_table", "StubGen.Decisions.parameter_string_table"]),
-    "C07": spec("C07", [stage_gen.run, stage_ana.run, stage_e2e.run]),
+    "C07": spec("C07", [stage_gen.run, stage_ana.run, stage_e2e.run], [D], ["StubGen.Decisions.result_string_table"]),
     "C08": spec("C08", [stage_det.run, stage_disc.run, stage_ana.run, stage_gen.run, stage_pipe.run]),
     "C09": spec("C09", [stage_names.run, stage_gen.run, stage_e2e.run], [T], ["StubGen.Tables.name_annotation_form"]),
     "C10": spec("C10", [stage_gen.run, stage_e2e.run, stage_layout.run, stage_pipe.run]),
@@ -74,5 +74,6 @@ PROPS = {
     "C16": spec("C16", [stage_gen.run, stage_e2e.run, stage_pipe.run]),
     "C19": spec("C19", [stage_types.run], [T], ["StubGen.Tables.type_kinds"]),
     "C20": spec("C20", [stage_gen.run, stage_e2e.run], [T, D],
-                ["StubGen.Tables.todo_keys", "StubGen.Tables.todo_messages_distinct", "StubGen.Decisions.parameter_string_table"]),
+                ["StubGen.Tables.todo_keys", "StubGen.Tables.todo_messages_distinct", "StubGen.Decisions.parameter_string_table",
+                 "StubGen.Decisions.attribute_string_table", "StubGen.Decisions.result_string_table"]),
 }
